@@ -8,8 +8,9 @@ pub trait Number: Sized + Copy {
     spec fn is_nanv(self) -> bool;    // float NaN; false for integers
     fn f64(self) -> (r: f64)
         ensures rv(r) == self.rval(), nan(r) == self.is_nanv();
+    spec fn zero_spec() -> Self;
     fn zero() -> (r: Self)
-        ensures r.rval() == 0real, !r.is_nanv();
+        ensures r == Self::zero_spec(), r.rval() == 0real, !r.is_nanv();
     // Number::ceil: identity on integers (tea-dtype number.rs default), mathematical ceiling on floats (A-REAL)
     spec fn ceil_spec(self) -> Self;
     fn ceil(self) -> (r: Self)
@@ -27,6 +28,7 @@ impl Number for f64 {
     open spec fn is_nanv(self) -> bool { nan(self) }
     #[verifier::external_body]
     fn f64(self) -> (r: f64) ensures r == self { self }
+    uninterp spec fn zero_spec() -> f64;
     #[verifier::external_body]
     fn zero() -> (r: f64) { 0.0 }
     open spec fn ceil_spec(self) -> f64 { f64_ceil(self) }
@@ -44,6 +46,7 @@ impl Number for usize {
     open spec fn is_nanv(self) -> bool { false }
     #[verifier::external_body]
     fn f64(self) -> (r: f64) { self as f64 }
+    open spec fn zero_spec() -> usize { 0 }
     #[verifier::external_body]
     fn zero() -> (r: usize) { 0 }
     open spec fn ceil_spec(self) -> usize { self }
@@ -61,6 +64,7 @@ impl Number for i64 {
     open spec fn is_nanv(self) -> bool { false }
     #[verifier::external_body]
     fn f64(self) -> (r: f64) { self as f64 }
+    open spec fn zero_spec() -> i64 { 0 }
     #[verifier::external_body]
     fn zero() -> (r: i64) { 0 }
     open spec fn ceil_spec(self) -> i64 { self }
